@@ -1626,5 +1626,6 @@ class XsdAlternative(XsdComponent):
         try:
             result = list(self.token.select(context=XPathContext(elem)))
             return self.token.boolean_value(result)
-        except (TypeError, ValueError):
+        except (ElementPathError, TypeError, ValueError):
+            # A dynamic error in the evaluation of the test is treated as a False
             return False
